@@ -106,6 +106,16 @@ func init() {
 		if p.ClockHook != nil {
 			return p.ClockHook(fr)
 		}
+		if p.bounds["symbolic_clock"] == 1 {
+			// arbitrary non-decreasing instants (whole seconds) within a sane range
+			sec := p.newScalar("now", "int64", 64)
+			p.Assume(sym.And(sym.SLt(mkInt(31536000), sec), sym.SLt(sec, mkInt(7258118400))))
+			if prev, ok := p.state["clock_prev"].(*sym.Term); ok {
+				p.Assume(sym.SLe(prev, sec))
+			}
+			p.state["clock_prev"] = sec
+			return Tuple{sec, sym.Const(32, 0), mkInt(1)}
+		}
 		// default: a fixed instant (harnesses that reason about time install the clock model)
 		return Tuple{mkInt(1714979289), sym.Const(32, 0), mkInt(1)}
 	}, "time.now")
